@@ -158,7 +158,7 @@ def make_judges(ctx):
 
 
 def floors(tier):
-    return [('not', '-')] + [(op, yk) for op in ('and', 'or', 'xor') for yk in ('Fxp', '+mask', '-mask', 'masks')] + [('mismatch',), ('mismatch-numpy',), ('broadcast-table',), ('mixed-magnitude-mask-list',), ('inplace-indexed', '53-63'), ('inplace-indexed', '64'), ('inplace-indexed', '65-128')] + \
+    return [('not', '-')] + [(op, yk) for op in ('and', 'or', 'xor') for yk in ('Fxp', '+mask', '-mask', 'masks')] + [('mismatch',), ('mismatch-numpy',), ('broadcast-table',), ('mixed-magnitude-mask-list',), ('element-against-mask-array',), ('inplace-indexed', '53-63'), ('inplace-indexed', '64'), ('inplace-indexed', '65-128')] + \
            [('numpy', op) for op in ('and', 'or', 'xor', 'not')] + [('arrays', op, k) for op in ('and', 'or', 'xor') for k in ((True, True), (True, False), (False, True))] + [('arrays', 'not', (True, False))] + \
            [('wide-array', w_, sg) for w_ in (63, 64, 65) for sg in (True, False)]
 
@@ -377,6 +377,17 @@ def run_case(case, ctx):
                 _try(lambda: [big, 7, 1] ^ xa_)
                 _try(lambda: xa_ ^ [[big, 1, 2], [1, big, 3]])
                 ctx.floor_hit(('mixed-magnitude-mask-list',))
+                # an element taken out of the array (its code is a python integer) against an array of machine-integer masks whose results
+                # lie below and above 2^63, either side
+                el_ = _try(lambda: xa_[1])
+                if el_ is not None:
+                    marr = np.array([-2, 1, (1 << 62) + 1, rng.getrandbits(62)])
+                    _try(lambda: el_ | marr)
+                    _try(lambda: el_ ^ marr)
+                    _try(lambda: marr & el_)
+                    _try(lambda: el_ | np.array([[1, -1], [(1 << 62) + 5, 3]]))
+                    _try(lambda: np.array([1, 2 ** 63 + 1], dtype=np.uint64) ^ el_)
+                    ctx.floor_hit(('element-against-mask-array',))
             _try(lambda: x & ya_)
             _try(lambda: ~xa_[1])
             _try(lambda: xa_[2] | ya_[0])
